@@ -179,7 +179,7 @@ theorem bloomHas_mkBloom (fp : Hash → Bool) (hs : List Hash) {h : Hash} (hm : 
     congr 1
     exact Bloom.allSet_of_bitSet _ _ (fun q hq => inv.members h hm ps hps q hq)
   unfold bloomHas mkBloom
-  simp only [hf, hc, Bool.or_true]
+  simp only [hf, if_neg hne, hc, Bool.or_true]
 
 /-! ### converged peers offer nothing -/
 
